@@ -10,6 +10,10 @@ package health
 //@   assigns abool(p.stopped)
 //@ func (p *Prober) Start
 //@   assigns spawned[*]
+// C10: a prober that is started (again, after a stop - the object is reused across restarts of its process) really
+// starts its checks: the goroutine clears the stop flag before it looks at it.
+//@ func (p *Prober) Start$1
+//@   ensures checks-started: hcStarts(p.hc) == old(hcStarts(p.hc)) + 1
 
 // C10: whatever is configured, the effective probe parameters are legal.
 //@ define probeLegal(p *Probe) bool = p.InitialDelay >= 0 && p.PeriodSeconds >= 1 && p.TimeoutSeconds >= 1 && p.SuccessThreshold >= 1 && p.FailureThreshold >= 1
@@ -21,10 +25,13 @@ package health
 //@   ensures keephost: isDefinedHost(old(p.Host)) ==> p.Host == old(p.Host)
 //@   assigns p.Host, p.Scheme, p.Path, p.NumPort
 //@ define isDefinedHost(s string) bool = len(trimSpace(s)) != 0
+// the numeric port a probe dials is the one its port text denotes (0 = unset / out of range)
+//@ define portOfText(h *HttpProbe) bool = (h.Port == "" ==> h.NumPort == 0) && (h.Port != "" ==> h.NumPort == ite(1 <= atoiVal(h.Port) && atoiVal(h.Port) <= 65535, atoiVal(h.Port), 0))
 
 //@ func (p *Probe) ValidateAndSetDefaults
 //@   ensures legal: probeLegal(p)
 //@   ensures http-port: p.HttpGet != nil ==> p.HttpGet.NumPort == 0 || (1 <= p.HttpGet.NumPort && p.HttpGet.NumPort <= 65535)
+//@   ensures http-port-of-text: p.HttpGet != nil ==> portOfText(p.HttpGet)
 //@   ensures keep: (old(p.InitialDelay) >= 0 ==> p.InitialDelay == old(p.InitialDelay)) && (old(p.PeriodSeconds) >= 1 ==> p.PeriodSeconds == old(p.PeriodSeconds)) &&
 //@                 (old(p.TimeoutSeconds) >= 1 ==> p.TimeoutSeconds == old(p.TimeoutSeconds)) && (old(p.SuccessThreshold) >= 1 ==> p.SuccessThreshold == old(p.SuccessThreshold)) &&
 //@                 (old(p.FailureThreshold) >= 1 ==> p.FailureThreshold == old(p.FailureThreshold))
